@@ -6,6 +6,7 @@
 
 #include <sys/socket.h>
 
+#include "convert.h"
 #include "connection.h"
 
 #include "stream.h"
@@ -34,7 +35,7 @@ extern MPT_INTERFACE(input) *mpt_accept(const MPT_STRUCT(socket) *socket)
 	sock._id = sockfd;
 	
 	/* bidirectional with 2 byte message ID */
-	if (!(in = mpt_stream_input(&sock, flags, 0, sizeof(uint16_t)))) {
+	if (!(in = mpt_stream_input(&sock, flags, MPT_ENUM(EncodingCobs), sizeof(uint16_t)))) {
 		(void) close(sockfd);
 	}
 	return in;
